@@ -1,6 +1,7 @@
 """C14 — from_native(value) denotes exactly that value."""
 import math
 
+from ..common import safe_repr
 from .. import encode, gen_value, model, runner, scripted_random as SR, sexp
 from ..common import d42  # noqa: F401
 from ..gen_schema import SchemaGen
@@ -103,23 +104,23 @@ def run(ctx):
     reqs, exp, info = [], [], []
     for v in vals:
         nested = isinstance(v, (list, dict)) and len(v) > 0
-        ctx.case(repr(v), nested)
+        ctx.case(safe_repr(v), nested)
         if gen_value.has_nan(v):
             continue
         try:
             s = from_native(v)
         except Exception as e:  # noqa: BLE001
-            ctx.violation("from_native raised %s on a plain value" % type(e).__name__, value=repr(v))
+            ctx.violation("from_native raised %s on a plain value" % type(e).__name__, value=safe_repr(v))
             continue
         if validate(s, v).has_errors():
-            ctx.violation("from_native(v) rejects v", value=repr(v), schema=repr(s))
+            ctx.violation("from_native(v) rejects v", value=safe_repr(v), schema=safe_repr(s))
         for pol in ("lo", "hi"):
             (k, gv), log = SR.generate(s, SR.make_policy(pol, ctx.rnd))
-            if k != "ok" or not same(v, gv) or repr(gv) != repr(v):
-                ctx.violation("from_native(v) does not generate exactly v", value=repr(v), generated=repr(gv))
+            if k != "ok" or not same(v, gv) or safe_repr(gv) != safe_repr(v):
+                ctx.violation("from_native(v) does not generate exactly v", value=safe_repr(v), generated=safe_repr(gv))
                 break
             if any(e[0] in ("int", "idx", "chr", "uniform") for e in log):
-                ctx.violation("from_native(v) consumes randomness when generating", value=repr(v), draws=log[:5])
+                ctx.violation("from_native(v) consumes randomness when generating", value=safe_repr(v), draws=log[:5])
                 break
         twins = []
         if isinstance(v, (list, dict)) and len(v) >= 16:
@@ -140,10 +141,10 @@ def run(ctx):
             except Exception:
                 continue
             if acc and not same_lenient(v, w):
-                ctx.violation("from_native(v) accepts a value that differs from v", value=repr(v), accepted=repr(w), schema=repr(s))
+                ctx.violation("from_native(v) accepts a value that differs from v", value=safe_repr(v), accepted=safe_repr(w), schema=safe_repr(s))
                 break
             if not acc and same(v, w) and not gen_value.has_nan(w):
-                ctx.violation("from_native(v) rejects a copy of v", value=repr(v), rejected=repr(w))
+                ctx.violation("from_native(v) rejects a copy of v", value=safe_repr(v), rejected=safe_repr(w))
                 break
         I = encode.Interner()
         try:
@@ -164,11 +165,11 @@ def run(ctx):
             ctx.count("refusal_probes")
             try:
                 s = from_native(v)
-                ctx.violation("from_native accepted an unsupported kind of value", value=repr(v), schema=repr(s))
+                ctx.violation("from_native accepted an unsupported kind of value", value=safe_repr(v), schema=safe_repr(s))
             except ValueError:
                 pass
             except Exception as e:  # noqa: BLE001
-                ctx.violation("from_native refused with %s, not ValueError" % type(e).__name__, value=repr(v))
+                ctx.violation("from_native refused with %s, not ValueError" % type(e).__name__, value=safe_repr(v))
             I = encode.Interner()
             try:
                 reqs.append(["fromnative", encode.enc_value(v, I)])
@@ -182,12 +183,12 @@ def run(ctx):
         if r != e:
             bad += 1
             if bad <= 10:
-                ctx.breakage("correspondence", "from_native result differs between model and code", value=repr(v),
+                ctx.breakage("correspondence", "from_native result differs between model and code", value=safe_repr(v),
                              detail=f"real {sexp.dumps(e)[:300]}\nmodel {sexp.dumps(r)[:300] if not isinstance(r, str) else r}")
     ctx.cov["corr_cases"] = len(reqs)
     ctx.cov["corr_disagreements"] = bad
     for v in vals[:5]:
-        ctx.sample({"value": repr(v)})
+        ctx.sample({"value": safe_repr(v)})
 
 
 def replay(path):
